@@ -450,6 +450,20 @@ func (w *world) exec(a act) {
 			sh.isNew = false // bytes beyond a shortened appendix are the frame's own earlier bytes
 		case "mutate":
 			sh := w.slots[a.S]
+			if w.rng.Intn(3) == 0 {
+				// first a reply that is REFUSED because no buffer of the pool can hold it: the frame keeps its buffer, and
+				// nobody else gets it. (A reply that is refused for its message length alone - 10001..65000 bytes - has
+				// moved the frame to a bigger buffer by then and its old content is gone: the property is silent on that.)
+				big := []int{66000, 70000, 200000}[w.rng.Intn(3)]
+				if err := sh.f.Reply(nil, make([]byte, big), nil); err == nil {
+					ev["err"] = true
+					ev["errtext"] = fmt.Sprintf("a reply with a message of %d bytes was not refused", big)
+					return
+				}
+				if w.rng.Intn(2) == 0 {
+					w.refusedNew() // and something else is built and dropped in between
+				}
+			}
 			md := sh.f.MessageData()
 			nb := w.randBytes(len(md))
 			copy(md, nb)
